@@ -626,11 +626,15 @@ class ExprMixin:
     def compare(self, op, a, b, path, merge=False):
         if isinstance(op, (ast.Is, ast.IsNot, ast.Eq, ast.NotEq)):
             r = self.equal(a, b, path, identity=isinstance(op, (ast.Is, ast.IsNot)))
+            if not isinstance(r, (bool, SBool)):
+                raise Unsupported(f"comparison of {a!r} and {b!r} has no model")
             if isinstance(op, (ast.IsNot, ast.NotEq)):
                 return (not r) if isinstance(r, bool) else SBool(z3.Not(r.t))
             return r
         if isinstance(op, (ast.In, ast.NotIn)):
             r = self.contains(b, a, path)
+            if not isinstance(r, (bool, SBool)):
+                raise Unsupported(f"`in` on {b!r} has no model")
             if isinstance(op, ast.NotIn):
                 return (not r) if isinstance(r, bool) else SBool(z3.Not(r.t))
             return r
